@@ -56,6 +56,17 @@ CHECKS = {
     design="6/C07", technique="TLA+ action properties (Detect.tla, Ring!Shift) + TLC + differential trace validation of the pipeline",
     note=TRUSTED + "Seeded samples of rulesets/layouts over TLC-enumerated catalogues; the rotated record is built from scratch by "
          "the harness with the spec's Shift (python twin in props/c07.py rotate_loc)."),
+ "C05": dict(
+    text=("Candidates.tla states the documented grouping (chemical hybrids by shared defining genes plus contained cores, "
+          "interleaved by overlapping cores, neighbouring by overlapping extents, singles) as a relation over the reported "
+          "candidates, with explicit sandwiches for coordinate coincidences and half-ring groups; TLC checks the grouping "
+          "against itself (disjointness, reference satisfies relation, renaming freedom) and enumerates all protocluster "
+          "shapes on a line and ring of 12; arrangements of 2-4 shapes with shared / own defining genes run through "
+          "Record.create_candidate_clusters() in every order of adding the protoclusters; Candidates_Trace (TLC) decides "
+          "membership, locations, kinds, duplicates and order independence."),
+    design="6/C05", technique="TLA+ spec (Candidates.tla) + TLC model checking + TLC trace validation of candidate formation",
+    note=TRUSTED + "Pairs exhaustive in thorough (sampled in quick), triples/quadruples sampled; defining genes are "
+         "single-base genes at core starts."),
 }
 CHECKS_END = None
 NOT_BUILT = "not built yet (work in progress, see DESIGN.md section 10 build order)"
